@@ -214,6 +214,8 @@ def kind_of(v):
         return "str"
     if isinstance(v, tuple):
         return "tuple"
+    if type(v).__name__ == "DictKeys":
+        return "set"
     if isinstance(v, list):
         return "list"
     if isinstance(v, dict):
